@@ -1,0 +1,70 @@
+//go:build verif
+// +build verif
+
+package chained_bft
+
+// Export shim for the verification harness (/verif, properties C14 and C15).
+// Compiled only with `-tags verif`; adds no behaviour, only synchronous access to
+// package-private handlers, tree mutators and bookkeeping of Smr / QCPendingTree.
+
+import (
+	chainedBftPb "github.com/xuperchain/xupercore/kernel/consensus/base/driver/chained-bft/pb"
+	"github.com/xuperchain/xupercore/lib/utils"
+	xuperp2p "github.com/xuperchain/xupercore/protos"
+)
+
+// VerifHandleReceivedProposal runs the proposal handler synchronously (the dispatcher starts it in a goroutine).
+func (s *Smr) VerifHandleReceivedProposal(msg *xuperp2p.XuperMessage) { s.handleReceivedProposal(msg) }
+
+// VerifHandleReceivedVoteMsg runs the vote handler synchronously.
+func (s *Smr) VerifHandleReceivedVoteMsg(msg *xuperp2p.XuperMessage) error {
+	return s.handleReceivedVoteMsg(msg)
+}
+
+// VerifVotes returns the signatures collected so far for a proposal id (nil if none).
+func (s *Smr) VerifVotes(id []byte) []*chainedBftPb.QuorumCertSign {
+	v, ok := s.qcVoteMsgs.Load(utils.F(id))
+	if !ok {
+		return nil
+	}
+	signs, _ := v.([]*chainedBftPb.QuorumCertSign)
+	return signs
+}
+
+// VerifKnowsProposal reports whether the proposal id is in the local-proposal table.
+func (s *Smr) VerifKnowsProposal(id []byte) bool {
+	_, ok := s.localProposal.Load(utils.F(id))
+	return ok
+}
+
+// VerifQcTree returns the pending tree of the instance.
+func (s *Smr) VerifQcTree() *QCPendingTree { return s.qcTree }
+
+// VerifLedgerState returns the ledger height the instance has been told about.
+func (s *Smr) VerifLedgerState() int64 { return s.ledgerState }
+
+// VerifUpdateQcStatus = updateQcStatus (insert + updateHighQC of the parent).
+func (t *QCPendingTree) VerifUpdateQcStatus(node *ProposalNode) error { return t.updateQcStatus(node) }
+
+// VerifUpdateHighQC = updateHighQC.
+func (t *QCPendingTree) VerifUpdateHighQC(id []byte) { t.updateHighQC(id) }
+
+// VerifEnforceUpdateHighQC = enforceUpdateHighQC.
+func (t *QCPendingTree) VerifEnforceUpdateHighQC(id []byte) error { return t.enforceUpdateHighQC(id) }
+
+// VerifUpdateCommit = updateCommit.
+func (t *QCPendingTree) VerifUpdateCommit(id []byte) { t.updateCommit(id) }
+
+// VerifOrphanRoots returns the roots of the orphan forest in list order.
+func (t *QCPendingTree) VerifOrphanRoots() []*ProposalNode {
+	out := []*ProposalNode{}
+	if t.OrphanList == nil {
+		return out
+	}
+	for e := t.OrphanList.Front(); e != nil; e = e.Next() {
+		if n, ok := e.Value.(*ProposalNode); ok {
+			out = append(out, n)
+		}
+	}
+	return out
+}
